@@ -98,6 +98,7 @@ let parse_chain toks =
   (* optional: how invoke / init are passed to Bind: 0 pointer to func, 1 plain func, 2 nil, 3 pointer to a non-func *)
   let kind () = if !pos < Array.length a then next () else 0 in
   let invKind = kind () in let initKind = kind () in
+  let _regroup = kind () in
   let rekind k (d : pdesc) = match k, d.d_shape with
     | 1, ShFnPtr (i, o) -> { d with d_shape = ShFn (i, o) }
     | 2, _ -> { d with d_shape = ShNil }
@@ -317,6 +318,23 @@ let monitor_chain prop case_toks impl =
         let keep l = List.filter (fun p -> List.mem p l) fixed in
         let st = side ["1"; "2"] and rn = side ["3"; "4"] in
         verdict (st = keep st && rn = keep rn) "a provider that is not marked Reorder changed its position relative to another one"
+      | "C12" ->
+        (* what the Debugging value says must be the chain actually built: the included providers'
+           names in the order of the final working list, and one INCLUDED/EXCLUDED line each *)
+        (match sec "DBG" impl_secs with
+         | [] -> "PASS (no provider received a Debugging value)"
+         | names :: rest ->
+           let name_of pid = match pid with
+             | 90 -> "Debugging" | 91 -> "_initialization_func" | 92 -> "_invoke_func"
+             | 93 -> "provide_unused" | 94 -> "return_unused" | p -> "n" ^ string_of_int (100 + p) in
+           let ents = List.filter_map (fun t -> match String.split_on_char ':' t with
+               | [p; _; _; inc] -> Some (int_of_string p, inc = "1") | _ -> None) (sec "ORDER" impl_secs) in
+           let expect = String.concat "," (List.map (fun (p, _) -> name_of p) (List.filter snd ents)) in
+           let ninc = List.length (List.filter snd ents) and nexc = List.length (List.filter (fun (_, i) -> not i) ents) in
+           let want = [Printf.sprintf "inc=%d" ninc; Printf.sprintf "exc=%d" nexc; Printf.sprintf "n=%d" ninc] in
+           if names <> expect then "FAIL Debugging.NamesIncluded is " ^ names ^ " but the chain built runs " ^ expect
+           else if rest <> want then "FAIL Debugging counts " ^ String.concat " " rest ^ " but the chain built has " ^ String.concat " " want
+           else "PASS")
       | "C15" -> verdict (mon_C15_plan c (parse_plan impl_secs))
                    "a returned type is received by nobody above (and not ConsumptionOptional), or a wrapper overrides an un-received return from below without AllowReturnShadowing"
       | _ -> "PASS"
@@ -325,6 +343,25 @@ let monitor_chain prop case_toks impl =
 let user_included secs =
   List.sort compare (List.filter_map (fun t -> match String.split_on_char ':' t with
     | [pid; _; _; "1"] when int_of_string pid < 90 -> Some (int_of_string pid) | _ -> None) (sec "ORDER" secs))
+
+(* drop the argument [a] (a whole value: "d" or "u") from the argument lists of a LOG/RES token *)
+let strip_arg a tok =
+  let b = Buffer.create 32 in
+  let n = String.length tok in
+  let i = ref 0 in
+  while !i < n do
+    let ch = tok.[!i] in
+    if ch = '(' then begin
+      let j = ref (!i + 1) in
+      while !j < n && tok.[!j] <> ')' do incr j done;
+      let inner = String.sub tok (!i + 1) (!j - !i - 1) in
+      let vals = if inner = "" then [] else String.split_on_char ',' inner in
+      Buffer.add_char b '(';
+      Buffer.add_string b (String.concat "," (List.filter (fun v -> v <> a) vals));
+      i := !j
+    end else begin Buffer.add_char b ch; incr i end
+  done;
+  Buffer.contents b
 
 let monitor_pair prop case obs =
   match split_on_sep case, split_on_sep obs with
@@ -401,6 +438,35 @@ let monitor_pair prop case obs =
        if not (ok sb) then "FAIL the chain no longer binds with the injector marked Reorder and listed elsewhere"
        else if user_included sa <> user_included sb then "FAIL displacing the Reorder'd injector changes which providers are included"
        else if proj sa <> proj sb then "FAIL after displacing the Reorder'd injector some value comes from a different producer: " ^ first_diff (proj sb) (proj sa)
+       else "PASS"
+     | ["PAIR"; "dbgneutral"; pid] when prop = "C12" ->
+       (* the variant's provider [pid] has one more (last) parameter: drop it from its call records *)
+       let drop_last tok =
+         if not (tok = "" ) && (tok.[0] = 'C' || tok.[0] = 'E')
+            && (before '(' tok = "C" ^ pid || before '(' tok = "E" ^ pid) then begin
+           match String.index_opt tok '(', String.index_opt tok ')' with
+           | Some i, Some j ->
+             let inner = String.sub tok (i + 1) (j - i - 1) in
+             let vals = String.split_on_char ',' inner in
+             let vals = List.rev (match List.rev vals with _ :: r -> r | [] -> []) in
+             String.sub tok 0 (i + 1) ^ String.concat "," vals ^ String.sub tok j (String.length tok - j)
+           | _ -> tok
+         end else tok in
+       let no_d secs name = if secs == sb then List.map drop_last (sec name secs) else sec name secs in
+       let others secs = List.filter (fun p -> p <> int_of_string pid) (user_included secs) in
+       let asker secs = List.mem (int_of_string pid) (user_included secs) in
+       if ok sa <> ok sb then "FAIL asking for *Debugging changes whether the chain binds"
+       else if not (ok sa) then "PASS"
+       else if others sa <> others sb then "FAIL asking for *Debugging changes which other providers are included"
+       else if asker sa <> asker sb then "PASS (the asking provider itself is no longer included; the others are unchanged)"
+       else if no_d sa "RES" <> no_d sb "RES" || no_d sa "LOG" <> no_d sb "LOG" then "FAIL asking for *Debugging changes the behaviour"
+       else "PASS"
+     | ["PAIR"; "unused"; _] when prop = "C13" ->
+       let no_u secs name = List.map (strip_arg "u") (sec name secs) in
+       if ok sa <> ok sb then "FAIL adding an Unused parameter changes whether the chain binds"
+       else if not (ok sa) then "PASS"
+       else if user_included sa <> user_included sb then "FAIL adding an Unused parameter changes which providers are included"
+       else if no_u sa "RES" <> no_u sb "RES" || no_u sa "LOG" <> no_u sb "LOG" then "FAIL adding an Unused parameter changes the behaviour: " ^ first_diff (no_u sb "LOG") (no_u sa "LOG")
        else "PASS"
      | _ -> "PASS (no pair monitor)")
   | _ -> "FAIL malformed pair"
